@@ -229,7 +229,7 @@ func checkC08(c *mc.Ctx) {
 	// detected from fewer than 193 bytes, and detection needs two packets to be lost on plain readers)
 	one := EncodePkts(Packetize(PSIUnit(0, 0, [][]byte{SecPAT(modelPAT(1, 0x1000), ref.SecHdr{CNI: true})}, nil), nil, new(uint8), true))
 	two := append(append([]byte{}, one...), EncodePkts(Packetize(PESUnit(0x100, 0xe0, pesPayload(81, 100, c.Seed), 1, false), nil, new(uint8), false))...)
-	streams = append(streams, &Stream{Name: "single-packet", Bytes: one}, &Stream{Name: "two-packets", Bytes: two})
+	streams = append(streams, &Stream{Name: "single-packet", Bytes: one}, &Stream{Name: "two-packets", Bytes: two}, PayloadLengthSweepStream(c.Seed))
 	var cfgs []c08Cfg
 	for _, kind := range []string{"bytes", "bufio", "plain", "seek", "seekoff", "bytesoff", "section", "bufio16", "bufio64", "bufio192", "bufio193", "bufio200", "plain+eof", "seek+eof", "bufio16+eof"} {
 		for _, k := range []int{0, 1, 2, 3, 4, 16} {
@@ -242,7 +242,22 @@ func checkC08(c *mc.Ctx) {
 			}
 		}
 	}
+	// the stream with a packet of every payload length: more packet sizes, fewer read schedules
+	var cfgsSweep []c08Cfg
+	for _, kind := range []string{"bytes", "bufio", "plain", "seek", "section"} {
+		for _, k := range []int{0, 1, 2, 3, 4, 8, 12, 16, 20} {
+			cfgsSweep = append(cfgsSweep, c08Cfg{kind, false, k})
+			if k <= 4 {
+				cfgsSweep = append(cfgsSweep, c08Cfg{kind, true, k})
+			}
+		}
+	}
 	for _, st := range streams {
+		sweep := st.Name == "payload-length-sweep"
+		cfgs := cfgs
+		if sweep {
+			cfgs = cfgsSweep
+		}
 		basePk, baseDa, prob := c08Observe(c08Cfg{"bytes", false, 0}, st.Bytes, 0, nil, nil)
 		if prob != "" {
 			c.Rep.Report("baseline-broken", map[string]any{"kind": "stream", "bytes": mc.Hex(st.Bytes), "message": prob})
@@ -297,6 +312,12 @@ func checkC08(c *mc.Ctx) {
 				jobs = append(jobs, job{cfg, 0})
 				continue
 			}
+			if sweep {
+				for _, ch := range []int{1, 94, 188 + cfg.K, 400, 4096} {
+					jobs = append(jobs, job{cfg, ch})
+				}
+				continue
+			}
 			for ch := 1; ch <= 400; ch++ {
 				jobs = append(jobs, job{cfg, ch}, job{cfg, -ch})
 			}
@@ -347,6 +368,10 @@ func checkC08(c *mc.Ctx) {
 			c.Ev.AddScenario(mc.Scenario{Name: "short-stream-auto:" + st.Name, SpaceSize: n, Executed: n, Exhaustive: true,
 				Bound: "one-packet stream x auto-detection x packet size 188..192 x {bufio, seekable, seekable at an offset, advanced bytes.Reader, SectionReader} x chunkings: same packets, data and error/no-error as on a bytes.Reader"})
 		}
+		if sweep {
+			c.Ev.Class("every-payload-length", int64(len(jobs)))
+			continue
+		}
 		// deviation-bounded short reads
 		bound := 2
 		if c.Thorough() {
@@ -379,5 +404,5 @@ func checkC08(c *mc.Ctx) {
 		}
 		c.Ev.Sample(map[string]any{"stream": st.Name, "packets": len(st.Pkts), "configurations": len(cfgs)})
 	}
-	c.Ev.Require("one-byte-reads", "auto-detect", "larger-packets", "short-read-deviation", "short-stream-auto", "small-bufio-auto")
+	c.Ev.Require("one-byte-reads", "auto-detect", "larger-packets", "short-read-deviation", "short-stream-auto", "small-bufio-auto", "every-payload-length")
 }
